@@ -50,7 +50,8 @@ pub fn gen_req(rng: &mut Rng, keep: bool, noise_level: u64, mc: usize, bufsize: 
     let mut owed = built.expected_out.clone();
     let mut contents = vec![];
     for &s in role_streams(role) {
-        let len = match rng.below(5) { 0 => 0, 1 => 1 + rng.usize_below(8), _ => rng.usize_below(200) };
+        // buffers beyond 2^16 (run_c07's large cases) come with bodies that fill them: whole 65535-byte records inside one read
+        let len = if bufsize > 65_535 { 60_000 + rng.usize_below(90_000) } else { match rng.below(5) { 0 => 0, 1 => 1 + rng.usize_below(8), _ => rng.usize_below(200) } };
         let c = rng.bytes(len);
         let mut srecs = build_stream(rng, id, s, &c, noise_level, mc, &mut owed, true);
         // a one-request-at-a-time client sends no BeginRequest while a request is in progress
@@ -205,11 +206,17 @@ pub fn run_c07(ctx: &mut Ctx) {
         if or.saturated() { or.count("stopped_early_saturated"); break; }
         let k = 1 + rng.usize_below(4);
         let mc = 1 + rng.usize_below(100);
-        let b = *rng.pick(&[64usize, 128, 256, 1024, 8192]);
+        // a few connections with a buffer beyond 2^16 and bodies of 60..150 KB ("10s to 100s of KiB" per the documentation): reads of
+        // >= 65536 bytes at once, whole maximal records buffered, close() skipping tens of KB of unread input
+        let large = ci % 150 == 77;
+        let k = if large { 2 } else { k };
+        let b = if large { *rng.pick(&[66_000usize, 70_000, 131_072]) } else { *rng.pick(&[64usize, 128, 256, 1024, 8192]) };
+        if large { or.count("large_buffer_connections"); }
         let nl = rng.below(5);
         let plans: Vec<ReqPlan> = (0..k).map(|i| { let keep = i + 1 < k || rng.chance(1, 2); gen_req(&mut rng, keep, nl, mc, b, true) }).collect();
         let end = if rng.chance(1, 2) { "eof" } else { "pend" };
-        let op = conn_op(&plans, b, mc, end, &rd_script(&mut rng, 60), &wr_script(&mut rng, 60, false), &fl_script(&mut rng), "none", true);
+        let rd_n = if large { *rng.pick(&[0usize, 2, 6]) } else { 60 };   // large: after a few small reads the transport hands over all it has
+        let op = conn_op(&plans, b, mc, end, &rd_script(&mut rng, rd_n), &wr_script(&mut rng, 60, false), &fl_script(&mut rng), "none", true);
         log.case(&format!("c07-{ci}"));
         let o = ex(&mut log, &mut im, &op);
         let tr = parse_trace(&o);
